@@ -33,15 +33,26 @@ func Apply(base *Entry, changes []*Change) (*Entry, error) {
 		}
 
 		// Crawl down the tree until we reach the parent of the target location.
+		// Every entry along the way (including the parent itself) must be a
+		// directory (or phantom directory). Anything else can't be resolved as
+		// a parent, and, because non-directory entries are shared with the
+		// base entry (and with the new entries of earlier changes) rather than
+		// copied, it must never be modified here.
 		parent := result
 		components := strings.Split(change.Path, "/")
 		for len(components) > 1 {
+			if parent == nil || (parent.Kind != EntryKind_Directory && parent.Kind != EntryKind_PhantomDirectory) {
+				return nil, errors.New("unable to resolve parent path")
+			}
 			child, ok := parent.Contents[components[0]]
 			if !ok {
 				return nil, errors.New("unable to resolve parent path")
 			}
 			parent = child
 			components = components[1:]
+		}
+		if parent == nil || (parent.Kind != EntryKind_Directory && parent.Kind != EntryKind_PhantomDirectory) {
+			return nil, errors.New("unable to resolve parent path")
 		}
 
 		// Depending on the new value, either set or remove the entry. If we're
